@@ -42,7 +42,7 @@ class SimpleExpression(Generic[NumVal]):
 
     def value(self, scope: Mapping[str, NumVal]) -> NumVal:
         value = self.base
-        for name, factor in self.offsets:
+        for name, factor in self.offsets.items():
             value += scope[name] * factor
         return value
 
